@@ -91,7 +91,30 @@ def token_oracle(data, ans):
     return bad
 
 
-def walk_oracle(data, ans):
+# Production table: how the location of a node is built from its first / last item.
+# "first"/"last" = exactly the first / last child's start / end (loc = union of children);
+# a tuple of byte strings = the node's own delimiter token found at that end of the span;
+# None = not constrained.  This is the implementation-side twin of `Production` in Props/C14.lean.
+B = lambda *xs: tuple(x.encode() for x in xs)
+PRODUCTIONS = {
+    "E.Binary": ("first", "last"), "E.Call": ("first", "last"), "E.FieldAccess": ("first", "last"),
+    "E.MethodAccess": ("first", "last"), "E.Lambda": ("first", "last"), "E.Tuple": ("first", "last"),
+    "P.Id": ("first", "last"), "P.Or": ("first", "last"), "P.Variant": ("first", "last"),
+    "T.Fn": ("first", "last"), "T.Generic": ("first", "last"), "T.Id": ("first", "last"),
+    "bound": ("first", "last"), "super": ("first", "last"), "tparam": ("first", "last"), "pfield": ("first", "last"),
+    "E.IfElse": (B("if"), "last"), "E.Unary": (B("!", "-"), "last"), "extends": (B(":"), "last"),
+    "member": (B("function", "method", "private"), "last"), "case": ("first", None),
+    "E.Block": (B("{"), B("}")), "E.Match": (B("match"), B("}")), "P.Object": (B("{"), B("}")),
+    "P.Tuple": (B("("), B(")")), "S.Let": (B("let"), B(";")), "args": (B("("), B(")")),
+    "lparams": (B("("), B(")")), "params": (B("("), B(")")), "targs": (B("<"), B(">")),
+    "tlist": (B("("), B(")")), "tparams": (B("<"), B(">")), "typedef": (B("(", "<"), B(")")),
+    "toplevel": (B("class", "interface", "private"), None), "import": (B("import"), None),
+    "P.Wildcard": (B("_"), B("_")),
+}
+NAMED = ("name", "E.LocalId", "E.ClassId")
+
+
+def walk_oracle(data, ans, hist=None):
     if ans.startswith("panic"):
         return []          # C05
     m = re.match(r"syn=(\d+) (\S+)$", ans)
@@ -100,9 +123,9 @@ def walk_oracle(data, ans):
     syn = int(m.group(1))
     doc = Doc(data)
     bad = []
-    stack = []             # (depth, kind, a, b, last_child_end)
     if m.group(2) == "-":
         return []
+    nodes = []             # [depth, kind, a, b, span text, name, children]
     for item in m.group(2).split(";"):
         f = item.split(":")
         depth, kind, sp = int(f[0]), f[1], f[2]
@@ -112,35 +135,112 @@ def walk_oracle(data, ans):
             bad.append(f"{kind} location {sp} is outside the document"); continue
         if a > b:
             bad.append(f"{kind} location {sp} has start after end"); continue
-        if kind == "error" or syn:
-            continue       # the remaining clauses quantify over syntactically valid modules
-        while stack and stack[-1][0] >= depth:
+        if kind == "error":
+            continue
+        nodes.append([depth, kind, a, b, sp, unhex(f[3]) if len(f) > 3 else None, []])
+    if syn:
+        return bad         # the remaining clauses quantify over syntactically valid modules
+    stack, roots = [], []
+    for n in nodes:
+        while stack and stack[-1][0] >= n[0]:
             stack.pop()
-        if stack:
-            pd, pk, pa, pb, last = stack[-1]
-            if not (pa <= a and b <= pb):
-                bad.append(f"{kind} {sp} is not enclosed by its parent {pk} [{pa},{pb})")
-            if a < last:
-                bad.append(f"{kind} {sp} overlaps or precedes its previous sibling under {pk}")
-            stack[-1] = (pd, pk, pa, pb, b)
-        if kind == "name":
-            name = unhex(f[3]) if len(f) > 3 else b""
-            if data[a:b] != name:
-                bad.append(f"name {name!r} at {sp} covers {data[a:b][:30]!r}")
-        stack.append((depth, kind, a, b, a))
-    # toplevel siblings (depth 0) ordered and disjoint
-    if not syn:
-        last = 0
-        for item in m.group(2).split(";"):
-            f = item.split(":")
-            if f[0] == "0" and f[1] in ("import", "toplevel"):
-                l0, c0, l1, c1 = parse_span(f[2])
-                a, b = doc.offset(l0, c0), doc.offset(l1, c1)
-                if a is not None and b is not None:
-                    if a < last:
-                        bad.append(f"{f[1]} {f[2]} overlaps the previous toplevel construct")
-                    last = b
-    return bad
+        (stack[-1][6] if stack else roots).append(n)
+        stack.append(n)
+
+    def siblings(parent_kind, kids):
+        last, lastk = None, None
+        for k in kids:
+            # a type definition's location deliberately starts at the class's type parameters
+            if last is not None and k[2] < last and not (k[1] == "typedef" and lastk == "tparams"):
+                bad.append(f"{k[1]} {k[4]} overlaps or precedes its previous sibling {lastk} under {parent_kind}")
+            last, lastk = k[3], k[1]
+
+    siblings("module", [r for r in roots if r[1] in ("import", "toplevel")])
+    for n in nodes:
+        depth, kind, a, b, sp, name, kids = n
+        if hist is not None:
+            hist[kind] = hist.get(kind, 0) + 1
+        if kind in NAMED and data[a:b] != name:
+            bad.append(f"{kind} {name!r} at {sp} covers {data[a:b][:30]!r}")
+        for k in kids:
+            if not (a <= k[2] and k[3] <= b):
+                bad.append(f"{k[1]} {k[4]} is not enclosed by its parent {kind} {sp}")
+        siblings(kind, kids)
+        rule = PRODUCTIONS.get(kind)
+        if rule:
+            for side, r in enumerate(rule):
+                if r is None:
+                    continue
+                if r in ("first", "last"):
+                    if kids:
+                        want = kids[0][2] if side == 0 else kids[-1][3]
+                        if (a if side == 0 else b) != want:
+                            bad.append(f"{kind} {sp}: its {'start' if side == 0 else 'end'} is not its {r} child's "
+                                       f"({kids[0][1] + ' ' + kids[0][4] if side == 0 else kids[-1][1] + ' ' + kids[-1][4]}): "
+                                       f"loc is not the union of its children")
+                else:
+                    txt = data[a:b]
+                    if not any((txt.startswith(t) if side == 0 else txt.endswith(t)) for t in r):
+                        bad.append(f"{kind} {sp} does not {'start' if side == 0 else 'end'} with its delimiter "
+                                   f"{'/'.join(t.decode() for t in r)}: covers {txt[:12]!r}..{txt[-12:]!r}")
+    return bad[:12]
+
+
+def parse_loc(s):
+    mod, sp, inside, cov = s.split("/")
+    return mod, parse_span(sp), inside == "in", (None if cov == "-" else unhex(cov))
+
+
+def svc_oracle(module, data, ans, hist=None):
+    """LSP results at every identifier position: locations lie in their document, start <= end,
+    spell the name where they denote one, and - in an error-free module - a local variable's
+    definition and references exist and contain the queried occurrence."""
+    if ans.startswith("panic"):
+        return [f"language-service query panicked: {unhex(ans.split(' ')[1]).decode('utf-8', 'replace')[:120]}"]
+    m = re.match(r"errs=(\d+) syn=(\d+) (\S+)$", ans)
+    if not m:
+        return [f"unreadable answer {ans[:60]}"]
+    errs, syn = int(m.group(1)), int(m.group(2))
+    clean = errs == 0 and syn == 0
+    bad = []
+    if m.group(3) == "-":
+        return []
+    for item in m.group(3).split(";"):
+        head, _, val = item.partition("=")
+        kind, _, rest = head.partition("@")
+        if hist is not None:
+            hist[kind] = hist.get(kind, 0) + 1
+        locs = [] if val in ("none", "ok", "syn") else [parse_loc(x) for x in val.split(",")]
+        for mod, sp, inside, cov in locs:
+            if not inside:
+                bad.append(f"{kind} at {rest}: result {mod} {sp} is outside its document or has start after end")
+        if kind in ("def", "refs"):
+            at, hn, scope = rest.split(":")
+            l, c = (int(x) for x in at.split("."))
+            name = unhex(hn)
+            if scope == "L" and name != b"this":
+                for mod, sp, inside, cov in locs:
+                    if inside and cov is not None and cov != name:
+                        bad.append(f"{kind} of local `{name.decode()}` at {at}: result {sp} covers {cov!r}")
+                if clean and val == "none":
+                    bad.append(f"{kind} of local `{name.decode()}` at {at} returns nothing in an error-free module")
+                if clean and kind == "refs" and locs and not any(sp[0] == l and sp[1] == c for _, sp, _, _ in locs):
+                    bad.append(f"references of local `{name.decode()}` at {at} do not include the queried occurrence")
+        elif kind == "hover":
+            l, c = (int(x) for x in rest.split("."))
+            for mod, sp, inside, cov in locs:
+                if not ((sp[0], sp[1]) <= (l, c) <= (sp[2], sp[3])):
+                    bad.append(f"hover at {rest} reports the range {sp} that does not contain the position")
+        elif kind == "fold":
+            spans = sorted(sp for _, sp, _, _ in locs)
+            for i in range(len(spans)):
+                for j in range(i + 1, len(spans)):
+                    x, y = spans[i], spans[j]
+                    if (y[0], y[1]) < (x[2], x[3]) and (y[2], y[3]) > (x[2], x[3]):
+                        bad.append(f"folding ranges {x} and {y} partially overlap")
+        elif kind == "rename" and val == "syn":
+            bad.append(f"rename at {rest} produced a module that no longer parses")
+    return bad[:12]
 
 
 # ----------------------------------------------------------------------------------------------
@@ -173,6 +273,180 @@ def relayout(rng, src):
     return c05.avoid_open_signatures("".join(parts))
 
 
+# ----------------------------------------------------------------------------------------------
+# grammar-directed generator: every expression / pattern / annotation production in every variant
+# (syntactically valid by construction; not necessarily well typed - the walk only needs syntax)
+
+BINOPS = [("*", 4), ("/", 4), ("%", 4), ("+", 5), ("-", 5), ("::", 5), ("<", 6), ("<=", 6), (">", 6), (">=", 6),
+          ("==", 6), ("!=", 6), ("&&", 7), ("||", 8)]
+VARS = ["a", "b", "c", "x", "y", "foo", "barBaz"]
+CLASSES = ["Foo", "Bar", "Option", "List"]
+TAGS = ["Some", "None", "A", "Bee"]
+
+
+def gen_type(r, d):
+    k = r.below(8) if d > 0 else r.below(3)
+    if k == 0:
+        return r.pick(["int", "bool", "unit"])
+    if k == 1:
+        return r.pick(CLASSES + ["Str"])
+    if k == 2:
+        return r.pick(["T", "Str", "int"])
+    if k in (3, 4):
+        return r.pick(CLASSES) + "<" + ", ".join(gen_type(r, d - 1) for _ in range(r.range(1, 3))) + ">"
+    if k == 5:
+        return "() -> " + gen_type(r, d - 1)
+    return "(" + ", ".join(gen_type(r, d - 1) for _ in range(r.range(1, 3))) + ") -> " + gen_type(r, d - 1)
+
+
+def gen_pattern(r, d, top=True):
+    k = r.below(9) if d > 0 else r.below(3)
+    if k == 0:
+        return r.pick(VARS)
+    if k == 1:
+        return "_"
+    if k == 2:
+        return r.pick(TAGS) + r.pick(["", "(_)", "(" + r.pick(VARS) + ")"])
+    if k in (3, 4):
+        return "(" + ", ".join(gen_pattern(r, d - 1, False) for _ in range(r.range(1, 3))) + r.pick(["", "", ","]) + ")"
+    if k == 5:
+        fields = []
+        for _ in range(r.range(1, 3)):
+            f = r.pick(VARS)
+            fields.append(f if r.chance(1, 2) else f + " as " + gen_pattern(r, d - 1, False))
+        return "{" + ", ".join(fields) + "}"
+    if k in (6, 7):
+        return r.pick(TAGS) + "(" + ", ".join(gen_pattern(r, d - 1, False) for _ in range(r.range(1, 3))) + ")"
+    if not top:
+        return r.pick(TAGS) + "(_)"
+    return " | ".join(r.pick(TAGS) + "(" + gen_pattern(r, d - 1, False) + ")" for _ in range(r.range(2, 3)))
+
+
+def paren(tp, maxp):
+    t, p = tp
+    return "(" + t + ")" if p > maxp else t
+
+
+def gen_block(r, d):
+    parts = []
+    for _ in range(r.below(3)):
+        k = r.below(4)
+        if k == 0:
+            parts.append("let " + gen_pattern(r, 1, False) + " = " + gen_expr(r, d - 1)[0] + ";")
+        elif k == 1:
+            parts.append("let " + r.pick(VARS) + ": " + gen_type(r, 2) + " = " + gen_expr(r, d - 1)[0] + ";")
+        elif k == 2:
+            parts.append(paren(gen_expr(r, d - 1), 9) + ";")
+        else:
+            parts.append("let _ = " + gen_expr(r, d - 1)[0] + ";")
+    if r.chance(3, 4):
+        parts.append(paren(gen_expr(r, d - 1), 12))
+    return "{ " + " ".join(parts) + " }"
+
+
+def gen_expr(r, d):
+    """-> (text, precedence): 0 atom, 1 postfix, 2 unary, 4..8 binary, 10 if, 11 match, 12 lambda"""
+    k = r.below(20) if d > 0 else r.below(5)
+    if k == 0:
+        return r.pick(["0", "1", "42", "2147483647", "true", "false", '"s"', '"\\"q\\" é"', '""']), 0
+    if k in (1, 2):
+        return r.pick(VARS + ["this"]), 0
+    if k == 3:
+        return r.pick(CLASSES) + "." + r.pick(["init", "make", "of"]) + r.pick(["", "", "<int>", "<T, () -> int>"]), 1
+    if k == 4:
+        return "(" + ", ".join(gen_expr(r, d - 1)[0] for _ in range(r.range(2, 3))) + r.pick(["", "", ","]) + ")", 0
+    if k == 5:      # parenthesised expression: no node of its own
+        return "(" + gen_expr(r, d - 1)[0] + ")", 0
+    if k in (6, 7):  # field / method access chains, explicit type arguments
+        return paren(gen_expr(r, d - 1), 1) + "." + r.pick(VARS) + r.pick(["", "", "", "<int>", "<Foo<bool>, int>"]), 1
+    if k in (8, 9):
+        args = ", ".join(gen_expr(r, d - 1)[0] for _ in range(r.below(3)))
+        return paren(gen_expr(r, d - 1), 1) + "(" + args + r.pick(["", "", ","] if args else [""]) + ")", 1
+    if k == 10:
+        return r.pick(["!", "-"]) + paren(gen_expr(r, d - 1), 1), 2
+    if k in (11, 12, 13):
+        op, p = r.pick(BINOPS)
+        return paren(gen_expr(r, d - 1), p) + " " + op + " " + paren(gen_expr(r, d - 1), p - 1), p
+    if k == 14:     # if / if-let / else-if chains
+        cond = paren(gen_expr(r, d - 1), 9) if r.chance(2, 3) else "let " + gen_pattern(r, 2, False) + " = " + paren(gen_expr(r, d - 1), 9)
+        tail = gen_block(r, d - 1) if r.chance(2, 3) else gen_expr_if(r, d - 1)
+        return "if " + cond + " " + gen_block(r, d - 1) + " else " + tail, 10
+    if k == 15:
+        cases = [gen_pattern(r, 2) + " -> " + paren(gen_expr(r, d - 1), 12) for _ in range(r.range(1, 3))]
+        return "match " + paren(gen_expr(r, d - 1), 9) + " { " + ", ".join(cases) + r.pick(["", ","]) + " }", 11
+    if k in (16, 17):  # the five lambda shapes
+        shape = r.below(6)
+        body = gen_expr(r, d - 1)[0]
+        ps = {0: "()", 1: "(a: int, b: " + gen_type(r, 1) + ")", 2: "(a, b: " + gen_type(r, 1) + ")", 3: "(a, b)", 4: "(a)",
+              5: "(a, b, c: int, d)"}[shape]
+        return ps + " -> " + body, 12
+    return gen_block(r, d), 1
+
+
+def gen_expr_if(r, d):
+    return "if " + paren(gen_expr(r, max(d - 1, 0)), 9) + " " + gen_block(r, max(d - 1, 0)) + " else " + gen_block(r, max(d - 1, 0))
+
+
+def gen_module(r):
+    members = []
+    for i in range(r.range(1, 4)):
+        tps = r.pick(["", "", "<T>", "<T: Foo<T>, R>"])
+        params = ", ".join(f"{v}: {gen_type(r, 2)}" for v in VARS[:r.below(4)])
+        kw = r.pick(["function", "method", "private function", "private method"])
+        members.append(f"  {kw} {tps}{' ' if tps else ''}m{i}({params}): {gen_type(r, 2)} = {gen_expr(r, r.range(1, 4))[0]}")
+    head = r.pick(["class Main", "class Main<T>", "private class Main", "class Main(val a: int, private val b: " + gen_type(r, 1) + ")",
+                   "class Main<T>(A, Bee(int, T))", "class Main : Foo", "class Main<T>(val v: T) : Foo<T>, Bar"])
+    imports = r.pick(["", "", "import { Foo } from a.B;\n", "import { Foo, Bar } from x\nimport {Option} from std.option;\n"])
+    iface = r.pick(["", "", "interface I { method f(): int }\n", "interface J<T> : I { function <R> g(x: T): R method h(): unit }\n"])
+    return imports + iface + head + " {\n" + "\n".join(members) + "\n}\n"
+
+
+def oracle_of(kind):
+    return {"lex": token_oracle, "walk": walk_oracle}[kind]
+
+
+def run_svc(cases, max_pos, workers=4):
+    """cases: [(module name, text)] -> answers of the `svc` protocol (parallel harness processes)"""
+    import subprocess, threading
+    lines = [f"svc {n} " + hexs(t.encode()) for n, t in cases]
+    answers = ["<missing>"] * len(lines)
+
+    def work(idx):
+        p = subprocess.run([common.harness_bin(PROP)], input=("\n".join(lines[i] for i in idx) + "\n").encode(),
+                           stdout=subprocess.PIPE, stderr=subprocess.PIPE,
+                           env=dict(os.environ, C14_MAX_POS=str(max_pos), SAMVERIF_REPO=common.REPO))
+        out = [l for l in p.stdout.decode("utf-8", "replace").split("\n") if l]
+        for k, a in enumerate(out[:len(idx)]):
+            answers[idx[k]] = a
+        if len(out) < len(idx):
+            answers[idx[len(out)]] = f"<harness died rc={p.returncode}: {p.stderr.decode('utf-8', 'replace').strip()[-160:]}>"
+    parts = [list(range(w, len(lines), workers)) for w in range(workers)]
+    ts = [threading.Thread(target=work, args=(p,)) for p in parts if p]
+    [t.start() for t in ts]; [t.join() for t in ts]
+    return answers
+
+
+def check_svc_batch(ctx, cases, label, stats, max_pos):
+    answers = run_svc(cases, max_pos)
+    for (name, t), a in zip(cases, answers):
+        orc = [a] if a.startswith("<") else svc_oracle(name, t.encode(), a, stats["svc_hist"])
+        m = re.match(r"errs=(\d+) syn=(\d+)", a)
+        if m:
+            stats["svc_clean" if m.group(1) == "0" and m.group(2) == "0" else "svc_with_errors"] += 1
+        if not orc or stats["reported"] >= 3:
+            continue
+        stats["reported"] += 1
+
+        def fails(c):
+            r = run_svc([(name, c)], max_pos, workers=1)[0]
+            return bool([r] if r.startswith("<") else svc_oracle(name, c.encode(), r))
+        small = c05.shrink_text(t, fails, budget=120)
+        r = run_svc([(name, small)], max_pos, workers=1)[0]
+        msgs = ([r] if r.startswith("<") else svc_oracle(name, small.encode(), r)) or orc
+        ctx.violation("a language-service result is not faithful to the text: " + "; ".join(msgs)[:300],
+                      {"protocol": "svc", "label": label, "module": name, "text": small, "oracle": msgs})
+
+
 def check_batch(ctx, kind, texts, label, stats):
     lines = [f"{kind} " + hexs(t.encode()) for t in texts]
     if kind == "lex":
@@ -183,7 +457,12 @@ def check_batch(ctx, kind, texts, label, stats):
     for i, t in enumerate(texts):
         data = t.encode()
         a = impl[i] if i < len(impl) else "<missing>"
-        orc = (token_oracle if kind == "lex" else walk_oracle)(data, a) if not a.startswith("<") else [a]
+        if a.startswith("<"):
+            orc = [a]
+        elif kind == "walk":
+            orc = walk_oracle(data, a, stats["node_hist"])
+        else:
+            orc = token_oracle(data, a)
         diff = model is not None and a != (model[i] if i < len(model) else "<missing>")
         if kind == "walk":
             m = re.match(r"syn=(\d+)", a)
@@ -198,7 +477,7 @@ def check_batch(ctx, kind, texts, label, stats):
         def fails_orc(c):
             ls = [f"{kind} " + hexs(c.encode())]
             rc, i2, _ = common.run_exec(common.harness_bin(PROP), [], ls)
-            return bool((token_oracle if kind == "lex" else walk_oracle)(c.encode(), i2[0]))
+            return bool(oracle_of(kind)(c.encode(), i2[0]))
 
         def fails_diff(c):
             i2, m2 = common.run_pair(PROP, ["lex " + hexs(c.encode())])
@@ -210,7 +489,7 @@ def check_batch(ctx, kind, texts, label, stats):
                 continue
             stats["seen"].add(small)
             rc, i2, _ = common.run_exec(common.harness_bin(PROP), [], [f"{kind} " + hexs(small.encode())])
-            msgs = (token_oracle if kind == "lex" else walk_oracle)(small.encode(), i2[0]) or orc
+            msgs = oracle_of(kind)(small.encode(), i2[0]) or orc
             ctx.violation("a reported source position is not faithful to the text: " + "; ".join(msgs)[:300],
                           {"protocol": kind, "label": label, "text": small, "hex": hexs(small.encode()), "impl": i2[0],
                            "oracle": msgs})
